@@ -1269,9 +1269,13 @@ class Obj(Opcode):
         kls = args.pop(0)
         # TODO Verify paths for correctness
         if args or hasattr(kls, "__getinitargs__") or not isinstance(kls, type):
-            interpreter.stack.append(ast.Call(kls, args, []))
+            call = ast.Call(kls, args, [])
         else:
-            interpreter.stack.append(ast.Call(kls, kls, []))
+            call = ast.Call(kls, kls, [])
+        # Like REDUCE, this runs arbitrary code: bind it to a variable so that the call stays in
+        # the AST even if the value is popped or never used.
+        var_name = interpreter.new_variable(call)
+        interpreter.stack.append(ast.Name(var_name, ast.Load()))
 
 
 class ShortBinUnicode(DynamicLength, ConstantOpcode):
@@ -1339,9 +1343,11 @@ class NewObj(Opcode):
         args = interpreter.stack.pop()
         class_type = interpreter.stack.pop()
         if isinstance(args, ast.Tuple):
-            interpreter.stack.append(ast.Call(class_type, list(args.elts), []))
+            call = ast.Call(class_type, list(args.elts), [])
         else:
-            interpreter.stack.append(ast.Call(class_type, [ast.Starred(args)], []))
+            call = ast.Call(class_type, [ast.Starred(args)], [])
+        var_name = interpreter.new_variable(call)
+        interpreter.stack.append(ast.Name(var_name, ast.Load()))
 
 
 class NewObjEx(Opcode):
@@ -1352,9 +1358,11 @@ class NewObjEx(Opcode):
         args = interpreter.stack.pop()
         class_type = interpreter.stack.pop()
         if isinstance(args, ast.Tuple):
-            interpreter.stack.append(ast.Call(class_type, list(args.elts), kwargs))
+            call = ast.Call(class_type, list(args.elts), kwargs)
         else:
-            interpreter.stack.append(ast.Call(class_type, [ast.Starred(args)], kwargs))
+            call = ast.Call(class_type, [ast.Starred(args)], kwargs)
+        var_name = interpreter.new_variable(call)
+        interpreter.stack.append(ast.Name(var_name, ast.Load()))
 
 
 class BinPersId(Opcode):
@@ -1362,13 +1370,13 @@ class BinPersId(Opcode):
 
     def run(self, interpreter: Interpreter):
         pid = interpreter.stack.pop()
-        interpreter.stack.append(
-            ast.Call(
-                ast.Attribute(ast.Name("UNPICKLER", ast.Load()), "persistent_load"),
-                [pid],
-                [],
-            )
+        call = ast.Call(
+            ast.Attribute(ast.Name("UNPICKLER", ast.Load()), "persistent_load"),
+            [pid],
+            [],
         )
+        var_name = interpreter.new_variable(call)
+        interpreter.stack.append(ast.Name(var_name, ast.Load()))
 
 
 class PersId(Opcode):
